@@ -60,7 +60,18 @@ pub fn build(case: &Case18) -> History {
         .ops
         .iter()
         .map(|o| {
-            let input = gen::materialize_input(&o.input, &alpha);
+            let mut input = gen::materialize_input(&o.input, &alpha);
+            if o.k >= 160 && !alpha.is_empty() {
+                // a third of the haystacks are long and all of one length (40 characters): whatever an object keeps
+                // about a haystack must not be recognised by length or place alone
+                let mut cs: Vec<char> = input.chars().collect();
+                let mut j = o.rep as usize;
+                while cs.len() < 40 {
+                    cs.push(alpha[j % alpha.len()]);
+                    j += 1 + (o.k as usize % 3);
+                }
+                input = cs.into_iter().collect();
+            }
             let re = o.re as usize;
             match o.kind % 8 {
                 0 => Op::IsMatch { re, input },
